@@ -306,8 +306,23 @@ func c14Copies(c *Ctx, a *sketchAnchors) {
 						_, nested := sl.Elem().Underlying().(*types.Slice)
 						filled := false
 						for _, e := range p.Effects {
-							if e.Kind == "call" && e.Call.Op == "builtin" && e.Call.Sym == "copy" && len(e.Call.Args) == 2 && stripVers(e.Call.Args[0]).Key() == g.Key() && termIsRecvPath(stripVers(e.Call.Args[1]), fld.path) {
-								filled = true
+							if e.Kind == "call" && e.Call.Op == "builtin" && e.Call.Sym == "copy" && len(e.Call.Args) == 2 && termIsRecvPath(stripVers(e.Call.Args[1]), fld.path) {
+								dst := stripVers(e.Call.Args[0])
+								// the fresh slice itself, or the copy's field it was just stored into (`c.bins = make(…); copy(c.bins, s.bins)`)
+								viaField := false
+								if len(p.RetT) > 0 {
+									x, q := dst, []string{}
+									for x.Op == "field" && len(x.Args) == 1 && !sameVal(x, p.RetT[0]) {
+										q = append([]string{x.Sym}, q...)
+										x = stripVers(x.Args[0])
+									}
+									if sameVal(x, stripVers(p.RetT[0])) && strings.Join(q, ".") == strings.Join(fld.path, ".") {
+										viaField = true
+									}
+								}
+								if dst.Key() == g.Key() || viaField {
+									filled = true
+								}
 							}
 							if nested && e.Kind == "store" && e.Addr.Op == "index" && stripVers(e.Addr.Args[0]).Key() == g.Key() {
 								filled = true
